@@ -17,7 +17,7 @@ INFO = dict(
     assumptions=['strings of length <= 3 (E1); XML characters only where F&O makes other code points an error',
                  'E2 stubs: Decimal.quantize contract, s[i:j] = index interval for non-negative i, j (non-negativity is proved as a side '
                  'obligation), math.isnan/isinf = False (finite arguments; INF/NaN branches are constant cases)',
-                 'outside: URI escaping, normalize-unicode, collations other than code point, libxml2 agreement'])
+                 'outside: URI escaping, normalize-unicode, collations other than code point and HTML ASCII case-insensitive, libxml2 agreement'])
 T = parse_all({
     'sub3': 'substring($s, $a, $b)', 'sub2': 'substring($s, $a)', 'len': 'string-length($s)', 'cps': 'string-to-codepoints($s)',
     'rt': 'codepoints-to-string(string-to-codepoints($s))', 'c2s': 'codepoints-to-string($c)',
@@ -322,3 +322,35 @@ def substring_infinite_arguments(si: int, xi: int, yi: int) -> bool:
     end = x + y
     want3 = ''.join(c for p, c in enumerate(s, 1) if x <= p and p < end)
     return ev(T['sub_inf2'], s=s, x=x) == [want2] and ev(T['sub_inf3'], s=s, x=x, y=y) == [want3]
+
+
+# --- round 5: the HTML ASCII case-insensitive collation (F&O 5.3.6: only A-Z are folded) in the collation-aware string functions: characters
+#     whose full case folding changes the length of the string (U+00DF -> 'ss', U+0130 -> 'i' + U+0307) or folds a non-ASCII letter to an ASCII
+#     one (U+212A KELVIN SIGN -> 'k', U+017F -> 's') must be left alone, and the index found must be valid for the ORIGINAL string ---------------
+
+_HA = 'http://www.w3.org/2005/xpath-functions/collation/html-ascii-case-insensitive'
+T.update(parse_all({'ha_all': '(contains($s, $t, "%s"), starts-with($s, $t, "%s"), ends-with($s, $t, "%s"), substring-before($s, $t, "%s"), '
+                              'substring-after($s, $t, "%s"))' % ((_HA,) * 5)}))
+_HA_CHARS = ('a', 'A', chr(0xDF), 'x', chr(0x130), 'S', chr(0x212A), chr(0x17F))
+_HA_SOUGHT = ('a', 'A', 'ss', 'k', 'xA', 'ab')
+
+
+def _ascii_fold(s):
+    return ''.join(chr(ord(c) + 32) if 'A' <= c <= 'Z' else c for c in s)
+
+
+@ob(budget=300, bound='subject: 2 characters from a table of 8 (ASCII letters of both cases, U+00DF, U+0130, U+212A, U+017F) followed by "aB", sought string from a table of 6 '
+                      '(indices chosen by the solver): contains / starts-with / ends-with / substring-before / substring-after with the HTML ASCII '
+                      'case-insensitive collation = the definition on strings folded on A-Z only, slices taken from the original string',
+    funcs=['elementpath/collations.py:CollationManager.find/contains/startswith/endswith', 'elementpath/xpath2/_xpath2_functions.py:substring-before/after'])
+def html_ascii_collation_folds_ascii_only(i0: int, i1: int, ti: int) -> bool:
+    """
+    pre: 0 <= i0 <= 7 and 0 <= i1 <= 7 and 0 <= ti <= 5
+    post: _
+    """
+    s = ''.join(_HA_CHARS[[k for k in range(8) if k == i][0]] for i in (i0, i1)) + 'aB'
+    t = _HA_SOUGHT[[k for k in range(6) if k == ti][0]]
+    fs, ft = _ascii_fold(s), _ascii_fold(t)
+    i = fs.find(ft)
+    want = [i >= 0, fs.startswith(ft), fs.endswith(ft), s[:i] if i >= 0 else '', s[i + len(t):] if i >= 0 else '']
+    return ev(T['ha_all'], s=s, t=t) == want
